@@ -685,16 +685,18 @@ def transform_journal(journal):
            account,
            {summary_func}(position),
            {summary_func}(balance)
-        {where}
 
-    """.format(where=('WHERE account ~ "{}"'.format(journal.account)
-                      if journal.account
-                      else ''),
-               summary_func=journal.summary_func or ''))
+    """.format(summary_func=journal.summary_func or ''))
+
+    # The account pattern is not pasted into the statement text: it
+    # may contain quote characters.
+    where_clause = None
+    if journal.account:
+        where_clause = ast.Match(ast.Column('account'), ast.Constant(journal.account))
 
     return ast.Select(cooked_select.targets,
                       journal.from_clause,
-                      cooked_select.where_clause,
+                      where_clause,
                       None, None, None, None, None)
 
 
